@@ -442,7 +442,7 @@ func genPost(g *gen, r *vlib.Rand) {
 	g.add(postEncLine(postHdr{}, []string{string(bytes.Repeat([]byte{'m'}, 300))}))
 
 	var encoded [][]byte
-	n := vlib.Count(g.tier, 250, 5000)
+	n := vlib.Count(g.tier, 600, 15000)
 	for i := 0; i < n; i++ {
 		k := r.Intn(30)
 		switch r.Intn(12) {
@@ -483,7 +483,7 @@ func genPost(g *gen, r *vlib.Rand) {
 	for _, b := range encoded {
 		g.add(vlib.Line(vlib.Atom("postread"), vlib.Hex(b)))
 	}
-	m := vlib.Count(g.tier, 600, 12000)
+	m := vlib.Count(g.tier, 1500, 40000)
 	for i := 0; i < m; i++ {
 		b := append([]byte(nil), vlib.Pick(r, encoded)...)
 		switch r.Intn(9) {
